@@ -279,19 +279,31 @@ class Obl(object):
 
     def eq(self, a, b):
         """a == b; for the concrete-polygon family the repo code computes areas
-        and centroids in rounded float arithmetic, so equality is within 1e-9."""
+        and centroids in rounded float arithmetic, so equality is within 1e-9 (relative to |b| + 1)."""
         if self.fam['kind'] == 'CONC':
-            tol = z3.RealVal(Fraction(1, 10 ** 9)) * self.fam.get('scale', 100)
+            tol = z3.RealVal(Fraction(1, 10 ** 9)) * (z3.If(b >= 0, b, -b) + 1)
             return z3.And(a - b <= tol, b - a <= tol)
         return a == b
 
-    def prove(self, formula, kind, what, extra=None):
+    def prove(self, formula, kind, what, extra=None, timeout_ms=None, optional=False):
+        """optional: an `unknown` within timeout_ms is handed back to the caller
+        (who then decides the clause another way) instead of being recorded."""
         f = formula.e if isinstance(formula, SBool) else formula
         if not isinstance(f, bool):
             self.distinct.add((kind, z3.simplify(f).hash()))
         self.count += 1
         t0 = time.time()
-        r = self.c.prove(f, '%s: %s' % (kind, what))
+        saved = self.c.timeout_ms
+        if timeout_ms: self.c.timeout_ms = timeout_ms
+        try:
+            r = self.c.prove(f, '%s: %s' % (kind, what))
+        finally:
+            self.c.timeout_ms = saved
+        if optional and r == 'unknown':
+            self.c.unknowns.pop()
+            self.c.stats['ob_unknown'] -= 1; self.c.stats['obligations'] -= 1
+            self.count -= 1
+            return r
         dt = time.time() - t0
         k = self.timing.setdefault(kind, [0, 0.0, 0.0])
         k[0] += 1; k[1] += dt; k[2] = max(k[2], dt)
@@ -380,11 +392,9 @@ def _check_plan(ob, geo, before, vol_before, promises_connections, check_volume,
         mode = ob.fam.get('cover', 'point')
         if mode == 'point':
             f = z3.Implies(ink, z3.Or(*insc))
-            r, _m = c.solve(z3.Not(f), timeout_ms=8000)
-            if r in ('sat', 'unsat'):
-                ob.prove(f, 'cover', 'a point strictly inside old column %d is in the closure of some column' % k,
-                         extra=dict(p=pt_value(p), old=poly_value(s0['poly'])))
-            else: mode = 'area'
+            r = ob.prove(f, 'cover', 'a point strictly inside old column %d is in the closure of some column' % k,
+                         extra=dict(p=pt_value(p), old=poly_value(s0['poly'])), timeout_ms=10000, optional=True)
+            if r == 'unknown': mode = 'area'
         if mode == 'area':
             # z3 does not decide the pointwise cover in useful time when a node is
             # a genuine rational function of the symbols (centroid of a symbolic
@@ -418,8 +428,10 @@ def _check_plan(ob, geo, before, vol_before, promises_connections, check_volume,
                 ob.prove(z3.Not(f), 'conformity', 'node %s is not in the open interior of edge %s' % (nm, '-'.join(sorted(k))),
                          extra=dict(edge=poly_value([a, b])))
         elif hang:
-            ob.prove(z3.Not(z3.Or(*[f for _nm, f in hang])), 'conformity', 'no node in the open interior of edge %s' % '-'.join(sorted(k)),
-                     extra=dict(edge=poly_value([a, b])))
+            for i0 in range(0, len(hang), 16):
+                ob.prove(z3.Not(z3.Or(*[f for _nm, f in hang[i0:i0 + 16]])), 'conformity',
+                         'no node in the open interior of edge %s%s' % ('-'.join(sorted(k)), '' if len(hang) <= 16 else ' (nodes %d..)' % i0),
+                         extra=dict(edge=poly_value([a, b])))
     ob.prove(len(edges) > 0 and all(len(set(s['nodes'])) == len(s['nodes']) and len(s['nodes']) >= 3 for s in after),
              'conformity', 'every column has at least 3 distinct nodes')
     # --- connections (concrete incidence on this path) ----------------------------
@@ -572,7 +584,7 @@ def task_plan(fam, steps, name):
             samples.append(dict(task=name, family=fam, steps=[step_text(s) for s in steps], columns_after=st['columns'],
                                 obligations=ob.count, example='total-area: %s' % str(z3.simplify(E(geo.area)))[:160]))
         return 'checked'
-    res = sym.explore(h, sym.Ctx(timeout_ms=60000 if fam.get('centre') == 'centroid' else 20000), max_paths=400, wall_s=600)
+    res = sym.explore(h, sym.Ctx(timeout_ms=60000 if fam.get('centre') == 'centroid' else 40000), max_paths=400, wall_s=600)
     return report.summarize(name, res, failures, samples, extra=dict(distinct_obligations=len(distinct), info=info))
 
 
@@ -737,7 +749,7 @@ def catalogue(tier):
                       ('pair-v', [4, 7]), ('pair-h', [3, 4]), ('two-apart', [0, 2]), ('knight', [0, 5])]:
             sels[nm] = s
     else:
-        sels = {k: R33_SHAPES[k] for k in ('single-centre', 'strip', 'L', 'ring', 'all')}
+        sels = {k: R33_SHAPES[k] for k in ('single-centre', 'strip', 'L', 'ring')}
     for nm, s in sels.items():
         plan(R33, [dict(op='refine', sel=s)], 'R3x3/refine/%s' % nm)
     for nm in (list(R33_SHAPES) if thorough else ['single-centre', 'L']):
@@ -772,7 +784,7 @@ def catalogue(tier):
     for nd in range(4):
         plan(Q1, [dict(op='split', col=0, node=nd)], 'Q1/split/n%d' % nd)
     plan(Q1, [dict(op='triangulate', col=0)], 'Q1/triangulate')
-    for sel in (_subsets(4) if thorough else [[0], [0, 3], [0, 1, 2, 3]]):
+    for sel in (_subsets(4) if thorough else [[0], [0, 3]]):
         plan(Q4, [dict(op='refine', sel=sel)], 'Q4/refine/%s' % ''.join(map(str, sel)))
     for sel in ([[0], [1, 2], [0, 1, 2, 3]] if thorough else [[1]]):
         for b in (('x', 'y', True) if thorough else (True,)):
@@ -836,7 +848,7 @@ def run(tier, seed, rep):
     rep.bounds += [
         'RECT(2x2): symbolic spacings > 0, symbolic origin, 1-3 symbolic layer thicknesses > 0, symbolic per-column surfaces placed by an enumerated pattern '
         '(above the top, at the top, strictly inside a layer, at a layer boundary, below the bottom); all 15 column subsets, full refinement and x / y / longest-side bisection; 3-5 bisected-edge-column configurations',
-        'RECT(3x3): %s selections (quick: 5 named shapes: single, strip, L, ring with hole, all; thorough: those plus every single column, rows, columns, 14 further patterns) - NOT all 511 subsets' % ('46' if tier == 'thorough' else '5'),
+        'RECT(3x3): %s selections (quick: 4 named shapes: single, strip, L, ring with hole; thorough: those plus every single column, rows, columns, 14 further patterns) - NOT all 511 subsets' % ('46' if tier == 'thorough' else '4'),
         'QUADFAM: Q1 = quadrilateral (0,0)(1,0)(a,b)(0,1) with a,b>0, a+b>1 and its centre specified at (1/2,1/2); Q4 = 2x2 unit squares whose shared node is moved to (a,b), |a-1|+|b-1|<1, centres left at the cell centres; symbolic origin',
         'earlier refinements: RECT(2x2) refined at column 0, then refined again (each single column of the result, all, all triangles)',
         'decompose_columns: rectangular centre column with 1-6 hanging (straight) nodes distributed over its sides at symbolic positions, lined with small symbolic neighbour columns (%d distributions); %d concrete convex 5..9-gons with symbolic surfaces/layers/query point' % (len(HANG_SHAPES if tier == 'thorough' else HANG_QUICK), len(CONC_SHAPES) if tier == 'thorough' else 3),
